@@ -1965,9 +1965,12 @@ class XNor(Any):
     """
 
     def __init__(self, *propositions, variable: typing.Union[puan.variable, str] = None):
+        at_most_negated = AtMost(value=1, propositions=propositions).negate()
+        # the negated AtMost keeps the given propositions as they are; to_json reads them from here
+        self.arguments = at_most_negated.propositions
         super().__init__(
             AtLeast(value=1, propositions=propositions).negate(), 
-            AtMost(value=1, propositions=propositions).negate(), 
+            at_most_negated, 
             variable=variable,
         )
 
@@ -2023,7 +2026,7 @@ class XNor(Any):
             'propositions': list(
                 map(
                     maz.compose(operator.methodcaller("to_json")),
-                    self.propositions[0].negate().propositions
+                    getattr(self, "arguments", None) or self.propositions[0].negate().propositions
                 )
             ) if len(self.propositions) > 0 else [],
         }
